@@ -215,7 +215,9 @@ def allPrevAttached (att : List Change) (c : Change) : Bool := c.prev.all (hasId
 
 /-- `canAttachOrRemove` without the wait-list side effect: (attach, remove) -/
 def canAttach (att : List Change) (c : Change) : Bool × Bool :=
-  if allPrevAttached att c then
+  -- (fix-tree-noprev) only the root has no previous ids; any other such change is dropped
+  if c.prev.isEmpty then (false, true)
+  else if allPrevAttached att c then
     if hasId att c.snap then (true, false) else (false, true)
   else (false, false)
 
